@@ -208,6 +208,8 @@ func execC08(sc c08Scenario) *vstat.Outcome {
 				}
 			}
 			cr.BodyOK = bytes.Equal(body, echoBody(k.Size, fmt.Sprintf("%s-%d", caseTag, key))) && r.Header.Get("X-Upstream") == "U" &&
+				fmt.Sprint(r.Header.Values("Vary")) == "[Accept-Encoding, X-Client-Kind]" && fmt.Sprint(r.Header.Values("Last-Modified")) == "[Wed, 21 Oct 2015 07:28:00 GMT]" &&
+				fmt.Sprint(r.Header.Values("Link")) == "[</a>; rel=preload </b>; rel=preload, </c>; rel=prefetch]" && r.Header.Get("Content-Type") == "text/plain" &&
 				strings.HasPrefix(r.Header.Get("X-Echo-Path"), "/c08/"+caseTag+"/k"+strconv.Itoa(key))
 		}
 		mu.Lock()
@@ -328,7 +330,7 @@ func execC08(sc c08Scenario) *vstat.Outcome {
 			continue
 		}
 		if !r.BodyOK {
-			out.Violate("C08", "altered", "%s: body or echo headers differ from what the upstream sends for this key (X-Status %q, Content-Encoding %q)", what, r.XStatus, r.CE)
+			out.Violate("C08", "altered", "%s: body or end-to-end headers (Vary, Last-Modified, Link, Content-Type, echo headers) differ from what the upstream sends for this key (X-Status %q, Content-Encoding %q)", what, r.XStatus, r.CE)
 		}
 		_, contacted := byReq[r.ReqID]
 		if contacted {
